@@ -144,6 +144,15 @@ def gen_defect(rng, data):
         if k < 0 or len(ob) != len(cb):
             return None
 
+        sp = unit(' ', eff or 'utf-8')
+        k2 = data.rfind(cb, he, ce)
+
+        if k2 > k and len(sp) == len(cb) and rng.chance(0.5):
+            # the document is never closed: the error is found at the very
+            # end of the content
+            return ({'kind': 'content_bytes', 'section': i, 'off': k2 - he,
+                     'hex': sp.hex()}, i, kind)
+
         return ({'kind': 'content_bytes', 'section': i, 'off': k - he,
                  'hex': cb.hex()}, i, kind)
 
